@@ -305,3 +305,68 @@ Definition sparse_wfb (D : nat) (t : sparse_theta) : bool :=
   && Nat.eqb (length (sW0 t)) (length (sW t))
   && Nat.eqb (length (sV1 t)) (length (sV2 t)) && Nat.eqb (length (sV0 t)) (length (sV2 t)).
 Definition inter_wfb (D : nat) (t : inter_theta) : bool := rectb D (iW t) && rectb D (iV2 t).
+
+(* ---------------------------------------------------------------- vocabulary of the source translation
+   (Generated/SrcPredict.v, configurations C09_* of harness/src_functions.py).  Each definition is the meaning of ONE
+   attribute / numpy / scipy call of the translated functions; which call is applied to what is read from the source.
+
+   Arrays: [vec] = a float array of shape (n,), [mat] = a float array of shape (n, D) as the list of its rows,
+   [list Z] = an integer array of shape (n,), [idmat] = an integer array of shape (n, arity) - the arity is kept
+   because shape (0, arity) has no row to read it from.  The elementwise operators  vec + vec = vadd, mat + mat = madd,
+   mat * mat = mmul, float + vec = sadd  are numpy's for operands of EQUAL shape (numpy's broadcasting of unequal shapes
+   and its ValueError for incompatible ones are not represented, as in the header of this file). *)
+Definition qnum := Qc.
+Definition vec := list Qc.
+Definition mat := list (list Qc).
+Record idmat := { im_arity : nat; im_rows : list (list Z) }.
+(* a ScreenBase object as the prediction code reads it: sample_ids, treatment_ids *)
+Record pydata := { pd_sample_ids : list Z; pd_treatment_ids : idmat }.
+
+Definition ERR_SHAPE : Z := 8%Z.     (* ValueError: could not broadcast input array / stacked arrays of unequal shape *)
+
+(* a[ids, ...] = a[ids]: integer fancy indexing along axis 0 - a new array with one entry (row) per index, in order;
+   a negative index i reads i + n; an index outside [-n, n) raises IndexError *)
+Definition np_take {A} (arr : list A) (ids : list Z) : result (list A) :=
+  res_map_all (fun i => match py_index (length arr) i with
+                        | Some k => match nth_error arr k with Some x => Ok x | None => Err ERR_INDEX end
+                        | None => Err ERR_INDEX
+                        end) ids.
+(* a[:, k] on a 2-d integer array: column k (negative k counts from the end; outside the arity: IndexError) *)
+Definition np_col (a : idmat) (k : Z) : result (list Z) :=
+  match py_index (im_arity a) k with
+  | Some j => Ok (map (fun r => nth j r 0%Z) (im_rows a))
+  | None => Err ERR_INDEX
+  end.
+(* a.shape[0], a.shape[1] of a 2-d integer array *)
+Definition im_shape0 (a : idmat) : Z := Z.of_nat (length (im_rows a)).
+Definition im_shape1 (a : idmat) : Z := Z.of_nat (im_arity a).
+(* a == v, elementwise on an integer array *)
+Definition np_eq_scalar (a : list Z) (v : Z) : list bool := map (fun x => (x =? v)%Z) a.
+(* a[mask, ...] = 0.0: every entry (row) of axis 0 where the boolean mask holds becomes zero ([z] = "all zeros of the
+   same shape": zscal for a number, zrow for a row); a mask of another length than axis 0 is an IndexError *)
+Definition np_mask_zero {A} (z : A -> A) (a : list A) (m : list bool) : result (list A) :=
+  if Nat.eqb (length m) (length a) then Ok (map2 (fun (b : bool) r => if b then z r else r) m a) else Err ERR_INDEX.
+(* float + vec *)
+Definition sadd (x : Qc) (v : list Qc) : list Qc := map (Qcplus x) v.
+(* scipy.special.expit(x), np.clip(x, a_min=lo, a_max=hi) on a vec *)
+Definition vexpit (orc : oracle) (x : list Qc) : list Qc := map (orc ORC_EXPIT) x.
+Definition vclip (lo hi : Qc) (x : list Qc) : list Qc := map (qclip lo hi) x.
+(* 1 / p on Python floats: ZeroDivisionError for p = 0.0 *)
+Definition py_recip (p : Qc) : result Qc := if qeqb p 0 then Err ERR_ZERODIV else Ok (1 / p).
+(* np.repeat(x, repeats=n) of a scalar *)
+Definition np_repeat (x : Qc) (n : Z) : list Qc := repeat x (Z.to_nat n).
+
+(* the representation map of the linking theorems: the ScreenBase object a model screen stands for.  Every object the
+   prediction code can be handed has sample_ids of shape (n,) and treatment_ids of shape (n, arity), i.e. is
+   [pydata_of] of a model screen ([ScrN a n], "any other arity", is only meant for a other than 1 and 2: scr_okb) *)
+Definition tids1 (rows : list (Z * Z)) : idmat := {| im_arity := 1; im_rows := map (fun r => [snd r]) rows |}.
+Definition tids2 (rows : list (Z * Z * Z)) : idmat :=
+  {| im_arity := 2; im_rows := map (fun r => [snd (fst r); snd r]) rows |}.
+Definition pydata_of (s : screen) : pydata :=
+  match s with
+  | Scr1 rows => {| pd_sample_ids := map fst rows; pd_treatment_ids := tids1 rows |}
+  | Scr2 rows => {| pd_sample_ids := col_s rows; pd_treatment_ids := tids2 rows |}
+  | ScrN a n => {| pd_sample_ids := repeat 0%Z n; pd_treatment_ids := {| im_arity := a; im_rows := repeat (repeat 0%Z a) n |} |}
+  end.
+Definition scr_okb (s : screen) : bool :=
+  match s with ScrN a _ => negb (Nat.eqb a 1) && negb (Nat.eqb a 2) | _ => true end.
